@@ -1,0 +1,100 @@
+//go:build verif
+
+package consensus
+
+import (
+	"github.com/icon-project/goloop/common"
+	"github.com/icon-project/goloop/module"
+)
+
+// Read-only accessors for the deterministic simulator (build tag "verif").
+// Nothing here changes behaviour.
+
+// SimMutexOf returns the address of the consensus mutex so that the simulator
+// can schedule its acquisition order.
+func SimMutexOf(cs module.Consensus) *common.Mutex {
+	return &cs.(*consensus).mutex
+}
+
+// SimSignedBytes returns the bytes covered by the signature of a proposal or
+// vote message (nil for other messages).
+func SimSignedBytes(msg Message) []byte {
+	switch m := msg.(type) {
+	case *ProposalMessage:
+		return m.signedBase._byteser.bytes()
+	case *VoteMessage:
+		return m.signedBase._byteser.bytes()
+	}
+	return nil
+}
+
+// SimVoteSlot is one validator slot of a vote set.
+type SimVoteSlot struct {
+	Voted          bool
+	DecisionDigest []byte // RoundDecisionDigest of the vote held by the slot
+	Nil            bool   // vote for nil
+}
+
+// SimVoteSetView is a snapshot of one (round, type) vote set together with
+// what the vote set itself reports.
+type SimVoteSetView struct {
+	Round                int32
+	Type                 VoteType
+	Slots                []SimVoteSlot
+	ReportedOverAny      bool   // hasOverTwoThirds()
+	ReportedOK           bool   // getOverTwoThirdsRoundDecisionDigest ok
+	ReportedDigest       []byte // reported decision digest
+	ReportedPartSetIDNil bool   // reported decision is nil
+}
+
+// SimState is a snapshot of the engine's round state. Must be called while the
+// caller is known not to race with the engine (simulator quiescence).
+type SimState struct {
+	Height      int64
+	Round       int32
+	Step        int
+	LockedRound int32
+	LockedID    []byte
+	Started     bool
+	VoteSets    []SimVoteSetView
+}
+
+func SimStateOf(c module.Consensus) SimState {
+	cs := c.(*consensus)
+	st := SimState{
+		Height: cs.height, Round: cs.round, Step: int(cs.step),
+		LockedRound: cs.lockedRound, Started: cs.started,
+	}
+	if !cs.lockedBlockParts.IsZero() && cs.lockedBlockParts.block != nil {
+		st.LockedID = cs.lockedBlockParts.block.ID()
+	}
+	rounds := make([]int32, 0, len(cs.hvs._votes))
+	for r := range cs.hvs._votes {
+		rounds = append(rounds, r)
+	}
+	for i := 1; i < len(rounds); i++ {
+		for j := i; j > 0 && rounds[j-1] > rounds[j]; j-- {
+			rounds[j-1], rounds[j] = rounds[j], rounds[j-1]
+		}
+	}
+	for _, r := range rounds {
+		vss := cs.hvs._votes[r]
+		for t := VoteType(0); t < numberOfVoteTypes; t++ {
+			vs := vss[t]
+			if vs == nil {
+				continue
+			}
+			v := SimVoteSetView{Round: r, Type: t, Slots: make([]SimVoteSlot, len(vs.msgs))}
+			for i, m := range vs.msgs {
+				if m != nil {
+					v.Slots[i] = SimVoteSlot{Voted: true, DecisionDigest: m.RoundDecisionDigest(), Nil: m.BlockPartSetIDAndNTSVoteCount == nil}
+				}
+			}
+			v.ReportedOverAny = vs.hasOverTwoThirds()
+			d, psid, ok := vs.getOverTwoThirdsRoundDecisionDigest()
+			v.ReportedOK, v.ReportedDigest, v.ReportedPartSetIDNil = ok, d, psid == nil
+			st.VoteSets = append(st.VoteSets, v)
+		}
+	}
+	return st
+}
